@@ -102,6 +102,7 @@ func Yield()                 {}
 func WaitAll()               {}
 func ExpectPanic()           {}
 func Note(s string)          {}
+func Split()                 {}
 func IsComparable(v any) bool { return true }
 func AsAssign(err error, target any) bool { return false }
 func GhostGet(obj any, key string) int    { return 0 }
